@@ -119,6 +119,27 @@ theorem C04_single_block_load (c : Codec) (signals : Array SigEnc) (i : Nat) (s 
              entries := (replayFixed bits s.maxStates cs 0 {}).2.entriesRev.reverse } :=
   single_block_load c signals i s bits tt t0 cs hs hb hdata hne hcs hlen
 
+/-- **the VCD vector path is transparent within a block**: a fresh multi-bit signal that receives any number of VCD value tokens
+at non-decreasing time indices (below 2^30) is, after `finish_block` — whatever other signals share the block, whatever the
+compression decision — loaded back as one entry per call at the call's time index, each the aligned packing of exactly `bits`
+symbols of that call (immediate repetitions dropped). Composition of `C04_encoder…`, `C04_block_slice`, `C04_meta_*`,
+`C04_stream_fixed`; the symbols behind an entry are `C04_entry_roundtrip`. -/
+theorem C04_vcd_block_roundtrip (c : Codec) (signals : Array SigEnc) (i : Nat) (s : SigEnc) (bits : Nat) (tt : List Nat) (t0 : Nat)
+    (calls : List (Nat × List Nat)) (hb : bits ≠ 1) (hne : calls ≠ [])
+    (hw : vcdWrites { tpe := .bitvec bits } calls = some s) (hs : signals.toList[i]? = some s)
+    (hsorted : (calls.map (·.1)).Pairwise (· ≤ ·)) (hsmall : ∀ t ∈ calls.map (·.1), t < 2 ^ 30)
+    (hlen : divCeil s.dataBytes.length 32 < 2 ^ 32) :
+    ∃ cs : List (Nat × States × List Nat),
+      (absolutise 0 cs).map (·.1) = calls.map (·.1) ∧
+      (∀ x ∈ cs, ∃ nums, nums.length = bits ∧ (∀ v ∈ nums, v < 9) ∧ x.2.2 = writeNState x.2.1 nums none) ∧
+      (let r := finishSignals c signals
+       let b : Block := { startTime := t0, timeTable := tt, offsets := r.2.1, data := r.2.2 }
+       loadSignal { blocks := [b] } i (.bitvec bits) =
+         some { maxStates := s.maxStates,
+                times := (replayAbs bits s.maxStates (absolutise 0 cs) {}).timesRev.reverse,
+                entries := (replayAbs bits s.maxStates (absolutise 0 cs) {}).entriesRev.reverse }) :=
+  vcd_block_roundtrip c signals i s bits tt t0 calls hb hne hw hs hsorted hsmall hlen
+
 /-- the stream the theorems are about is what the encoder appends: `add_n_bit_change` on a multi-bit signal -/
 theorem C04_encoder_chunk (ti : Nat) (value : List Nat) (st : States) (s s' : SigEnc) (bits : Nat)
     (ht : s.tpe = .bitvec bits) (hb : bits ≠ 1) (h : addNBit ti value st s = some s') :
